@@ -41,13 +41,20 @@ structure Gv where
   exit : Exit := .normal         -- how the block was left whose lock this step releases
   deriving DecidableEq, Repr, Inhabited
 
-/-- the yield point reached at each kind of exit of a block (`none`: the thread's method is over) -/
+/-- what the interpreter returns: the LOCAL operations (no yield point: flags, list maintenance)
+    executed on the way, in order, and the yield point reached (`none`: the thread's method is over) -/
+abbrev R := List Op × Option Y
+def R.cons (o : Op) (r : R) : R := (o :: r.1, r.2)
+def R.at (y : Y) : R := ([], some y)
+def R.over : R := ([], none)
+
+/-- what is reached at each kind of exit of a block -/
 structure Ctx where
-  nxt : Option Y := none        -- the block falls off its end
-  brk : Option Y := none
-  ret : Option Y := none
-  exc : Option Y := none         -- an exception (not IndexError of `_threads[0]`)
-  ie : Option Y := none          -- IndexError of `_threads[0]`
+  nxt : R := R.over              -- the block falls off its end
+  brk : R := R.over
+  ret : R := R.over
+  exc : R := R.over              -- an exception (not IndexError of `_threads[0]`)
+  ie : R := R.over               -- IndexError of `_threads[0]`
   deriving Repr, Inhabited
 
 def evalG (gv : Gv) : G → Bool
@@ -82,14 +89,15 @@ def resumeG (gv : Gv) : G → Bool
   | .or a b => if hasIsSet a then resumeG gv a || evalG gv b else resumeG gv b
   | g => evalG gv g
 
-def Ctx.leave (c : Ctx) (kf : Option Y) : Exit → Option Y
+def Ctx.leave (c : Ctx) (kf : R) : Exit → R
   | .normal => kf
   | .brk => c.brk
   | .ret => c.ret
   | .exc => c.exc
 
-/-- first yield point reached when the block is executed with `held` locks and continuation `c` -/
-def firstWith (gv : Gv) (callF : Meth → List Lk → Ctx → Option Y) : List Lk → Skel → Ctx → Option Y
+/-- local operations executed and first yield point reached when the block is executed with `held`
+    locks and continuation `c` -/
+def firstWith (gv : Gv) (callF : Meth → List Lk → Ctx → R) : List Lk → Skel → Ctx → R
   | _, .done, c => c.nxt
   | _, .brk, c => c.brk
   | _, .ret, c => c.ret
@@ -97,40 +105,41 @@ def firstWith (gv : Gv) (callF : Meth → List Lk → Ctx → Option Y) : List L
   | held, .op (.call m) k, c =>
     let kf := firstWith gv callF held k c
     callF m held { nxt := kf, ret := kf, exc := c.exc, ie := c.exc }
-  | held, .op .thrFirst k, c => if gv.threadsEmpty then c.ie else firstWith gv callF held k c
+  | held, .op .thrFirst k, c =>
+    if gv.threadsEmpty then c.ie else R.cons .thrFirst (firstWith gv callF held k c)
   | held, .op .assertNoStreams k, c => if gv.streamsOpen then c.exc else firstWith gv callF held k c
-  | held, .op o k, c => if o.yields then some (.ev o, held) else firstWith gv callF held k c
-  | held, .withL l _ _, _ => some (.acq l, held)
+  | held, .op o k, c => if o.yields then R.at (.ev o, held) else R.cons o (firstWith gv callF held k c)
+  | held, .withL l _ _, _ => R.at (.acq l, held)
   | held, .whileG g b k, c =>
     let kf := firstWith gv callF held k c
-    if reachesIsSet gv g then some (.isSet, held)
+    if reachesIsSet gv g then R.at (.isSet, held)
     else if evalG gv g then
-      let again := if evalG gv g then firstWith gv callF held b { c with brk := kf, nxt := none } else kf
+      let again := if evalG gv g then firstWith gv callF held b { c with brk := kf, nxt := R.over } else kf
       firstWith gv callF held b { c with brk := kf, nxt := again }
     else kf
   | held, .forChunks b k, c =>
     let kf := firstWith gv callF held k c
     if gv.more then
-      let again := if gv.more then firstWith gv callF held b { c with brk := kf, nxt := none } else kf
+      let again := if gv.more then firstWith gv callF held b { c with brk := kf, nxt := R.over } else kf
       firstWith gv callF held b { c with brk := kf, nxt := again }
     else kf
   | held, .ifG g t e k, c =>
     let kf := firstWith gv callF held k c
-    if reachesIsSet gv g then some (.isSet, held)
+    if reachesIsSet gv g then R.at (.isSet, held)
     else if evalG gv g then firstWith gv callF held t { c with nxt := kf }
     else firstWith gv callF held e { c with nxt := kf }
   | held, .tryFinally b f k, c =>
     let kf := firstWith gv callF held k c
-    let fin := fun (tgt : Option Y) => firstWith gv callF held f { c with nxt := tgt }
+    let fin := fun (tgt : R) => firstWith gv callF held f { c with nxt := tgt }
     firstWith gv callF held b { nxt := fin kf, brk := fin c.brk, ret := fin c.ret, exc := fin c.exc, ie := fin c.ie }
   | held, .tryIndexError b h k, c =>
     let kf := firstWith gv callF held k c
     firstWith gv callF held b { c with nxt := kf, ie := firstWith gv callF held h { c with nxt := kf } }
 
-/-- `some r`: the yield point `y` is in this block and `r` is reached after it; `none`: not here -/
-def afterWith (gv : Gv) (callF : Meth → List Lk → Ctx → Option Y)
-    (callA : Meth → List Lk → Ctx → Option (Option Y)) (y : Y) :
-    List Lk → Skel → Ctx → Option (Option Y)
+/-- `some r`: the yield point `y` is in this block and `r` is what follows it; `none`: not here -/
+def afterWith (gv : Gv) (callF : Meth → List Lk → Ctx → R)
+    (callA : Meth → List Lk → Ctx → Option R) (y : Y) :
+    List Lk → Skel → Ctx → Option R
   | _, .done, _ | _, .brk, _ | _, .ret, _ | _, .raise, _ => none
   | held, .op (.call m) k, c =>
     let kf := firstWith gv callF held k c
@@ -141,8 +150,8 @@ def afterWith (gv : Gv) (callF : Meth → List Lk → Ctx → Option Y)
     else afterWith gv callF callA y held k c
   | held, .withL l b k, c =>
     let kf := firstWith gv callF held k c
-    let rel : Option Y := some (.rel l, l :: held)
-    let relE : Option Y := some (.relExc l, l :: held)
+    let rel : R := R.at (.rel l, l :: held)
+    let relE : R := R.at (.relExc l, l :: held)
     let bc : Ctx := { nxt := rel, brk := rel, ret := rel, exc := relE, ie := relE }
     if y == (.acq l, held) then some (firstWith gv callF (l :: held) b bc)
     else if y == (.rel l, l :: held) then some (c.leave kf gv.exit)
@@ -168,7 +177,7 @@ def afterWith (gv : Gv) (callF : Meth → List Lk → Ctx → Option Y)
            afterWith gv callF callA y held k c
   | held, .tryFinally b f k, c =>
     let kf := firstWith gv callF held k c
-    let fin := fun (tgt : Option Y) => firstWith gv callF held f { c with nxt := tgt }
+    let fin := fun (tgt : R) => firstWith gv callF held f { c with nxt := tgt }
     let bc : Ctx := { nxt := fin kf, brk := fin c.brk, ret := fin c.ret, exc := fin c.exc, ie := fin c.ie }
     ((afterWith gv callF callA y held b bc).orElse fun _ =>
       afterWith gv callF callA y held f { c with nxt := c.leave kf gv.exit }).orElse fun _ =>
@@ -180,19 +189,19 @@ def afterWith (gv : Gv) (callF : Meth → List Lk → Ctx → Option Y)
       afterWith gv callF callA y held h hc).orElse fun _ => afterWith gv callF callA y held k c
 
 /-- calls inside an inlined call contribute nothing (as in `yieldsOf`) -/
-def callF0 : Meth → List Lk → Ctx → Option Y := fun _ _ c => c.nxt
-def callF1 (tbl : List (String × Skel)) (gv : Gv) : Meth → List Lk → Ctx → Option Y :=
+def callF0 : Meth → List Lk → Ctx → R := fun _ _ c => c.nxt
+def callF1 (tbl : List (String × Skel)) (gv : Gv) : Meth → List Lk → Ctx → R :=
   fun m held c => firstWith gv callF0 held (methTable tbl m) c
-def callA1 (tbl : List (String × Skel)) (gv : Gv) (y : Y) : Meth → List Lk → Ctx → Option (Option Y) :=
+def callA1 (tbl : List (String × Skel)) (gv : Gv) (y : Y) : Meth → List Lk → Ctx → Option R :=
   fun m held c => afterWith gv callF0 (fun _ _ _ => none) y held (methTable tbl m) c
 
-/-- the first yield point of method `name` -/
-def entryY (tbl : List (String × Skel)) (name : String) (gv : Gv) : Option Y :=
+/-- the local operations before, and the first yield point of, method `name` -/
+def entryY (tbl : List (String × Skel)) (name : String) (gv : Gv) : R :=
   firstWith gv (callF1 tbl gv) [] (lookupSk tbl name) {}
 
-/-- the yield point reached after the one at `y` (`none`: `y` is not a yield point of the method;
-    `some none`: the method is over) -/
-def nextY (tbl : List (String × Skel)) (name : String) (gv : Gv) (y : Y) : Option (Option Y) :=
+/-- what follows the yield point `y`: the local operations executed and the yield point reached
+    (`none`: `y` is not a yield point of the method; `some (_, none)`: the method is over) -/
+def nextY (tbl : List (String × Skel)) (name : String) (gv : Gv) (y : Y) : Option R :=
   afterWith gv (callF1 tbl gv) (callA1 tbl gv y) y [] (lookupSk tbl name) {}
 
 /-- the program counter of a player thread that stands for a yield point of `run` (`none`: done) -/
@@ -205,20 +214,69 @@ def pcOfY : Option Y → PPc
     follows its own (`new` for a program counter that is no yield point of the method) -/
 def nextPc (tbl : List (String × Skel)) (gv : Gv) (pc : PPc) : PPc :=
   match pc with
-  | .begin => pcOfY (entryY tbl "AudioThread.run" gv)
+  | .begin => pcOfY (entryY tbl "AudioThread.run" gv).2
   | pc =>
     match ppcY pc with
     | none => .new
     | some y =>
       match nextY tbl "AudioThread.run" gv y with
       | none => .new
-      | some r => pcOfY r
+      | some r => pcOfY r.2
 
 /-- the guards of `run` in state `s`, as player `i` (= `p`) reads them in its next step -/
 def playerGv (s : State) (i : Nat) (p : Player) : Gv :=
   { halting := p.halting, go := p.go, more := !(p.todo.isEmpty && !p.fail),
     inThreads := s.threads.contains i,
     raises := p.pc == .write && p.todo.isEmpty }
+
+-- ---------------------------------------------------------------------------------------------
+-- effects: what the operation at a yield point, and the local operations after it, do to the state
+-- ---------------------------------------------------------------------------------------------
+
+/-- effect of the operation at yield point `y` performed by player `i` (its record, the rest of the
+    state): a lock operation on the lock the skeleton names, one backend call on the thread's device
+    stream (refused by PortAudio — `perr` — after `terminate` / on a closed stream / a write on a
+    stream that is not active), a write hands the next chunk over; event tests and waits change nothing -/
+def applyYP (i : Nat) : Y → Player × State → Player × State
+  | (.acq .thr, _), (p, s) => ({ p with lk := some (.player i) }, s)
+  | (.acq .mgr, _), (p, s) => (p, { s with mlock := some (.player i) })
+  | (.rel .thr, _), (p, s) => ({ p with lk := none }, s)
+  | (.rel .mgr, _), (p, s) => (p, { s with mlock := none })
+  | (.ev .write, _), (p, s) =>
+    match p.todo with
+    | [] => (p, s)
+    | c :: rest =>
+      ({ p with written := p.written ++ [c], todo := rest },
+       { s with perr := s.perr || (decide (s.terminated > 0) || p.sst == .closed) || p.sst != .active })
+  | (.ev .stopStream, _), (p, s) =>
+    ({ p with sst := .stopped }, { s with perr := s.perr || (decide (s.terminated > 0) || p.sst == .closed) })
+  | (.ev .startStream, _), (p, s) =>
+    ({ p with sst := .active }, { s with perr := s.perr || (decide (s.terminated > 0) || p.sst == .closed) })
+  | (.ev .closeStream, _), (p, s) =>
+    ({ p with sst := .closed }, { s with perr := s.perr || (decide (s.terminated > 0) || p.sst == .closed) })
+  | _, ps => ps
+
+/-- effect of a local operation executed by player `i` (`run` has one: `_threads.remove(thread)`) -/
+def applyLocalP (i : Nat) : Player × State → Op → Player × State
+  | (p, s), .thrRemove => (p, { s with threads := s.threads.erase i })
+  | ps, _ => ps
+
+/-- **one step of a player thread, computed from the skeleton**: perform the operation at the pending
+    yield point, execute the local operations on the way and publish the next yield point -/
+def stepOfSkel (tbl : List (String × Skel)) (s : State) (i : Nat) (p : Player) : State :=
+  let gv := playerGv s i p
+  let fin := fun (r : R) (ps : Player × State) =>
+    let ps' := r.1.foldl (applyLocalP i) ps
+    setP ps'.2 i { ps'.1 with pc := pcOfY r.2 }
+  match p.pc with
+  | .begin => fin (entryY tbl "AudioThread.run" gv) (p, s)
+  | pc =>
+    match ppcY pc with
+    | none => s
+    | some y =>
+      match nextY tbl "AudioThread.run" gv y with
+      | none => s
+      | some r => fin r (applyYP i y (p, s))
 
 -- ---------------------------------------------------------------------------------------------
 -- the control thread: `AudioIO.play`, `AudioIO.close`, `AudioThread.pause` / `play` / `stop`
